@@ -4,7 +4,9 @@
 //! property's own clauses on the implementation (monitors).
 //!
 //! Modes: `gen --seed S --cases N [--tier T]`, `run <file>`, `stress --seed S --cases N [--tier T]`
-//! (real threads released by a barrier), `child` (one case on stdin; used for the global container).
+//! (real threads released by a barrier).  These orchestrate worker processes (`genchunk`, `stresschunk`,
+//! `child` = cases on stdin) so that a case that kills its process (stack overflow on an undetected
+//! cycle) is isolated and reported as a monitor failure; a case that hangs is caught by a watchdog.
 //!
 //! The global container is process-global and has no `clear`: every sequential case that touches
 //! `g` is executed in a fresh child process (`ioch child`); stress cases that use `g` give every
@@ -493,44 +495,69 @@ fn parse_cases(text: &str) -> Vec<CaseIn> {
 fn run_case_watched(id: &str, header: &str, ops: &[String]) -> String {
   let (tx, rx) = std::sync::mpsc::channel();
   let (id2, header2, ops2) = (id.to_string(), header.to_string(), ops.to_vec());
-  let progress = Arc::new(Mutex::new(String::new()));
+  // (transcript so far, operation in progress)
+  let progress = Arc::new(Mutex::new((String::new(), String::new())));
   let p2 = progress.clone();
   std::thread::Builder::new().stack_size(16 << 20).spawn(move || {
     let mut c = Case::new(&id2, &header2);
-    for l in &ops2 { *p2.lock().unwrap() = l.clone(); c.op(l); }
+    for l in &ops2 { *p2.lock().unwrap() = (c.tr.buf.clone(), l.clone()); c.op(l); }
     let _ = tx.send(c.finish());
   }).expect("spawn");
   match rx.recv_timeout(Duration::from_secs(20)) {
     Ok(s) => s,
     Err(_) => {
-      let mut tr = Tr::new(id, header);
-      let at = progress.lock().unwrap().clone();
-      tr.monitor("ioc:resolve-hang", &format!("operation `{at}` did not return within 20 s"));
+      let (sofar, at) = progress.lock().unwrap().clone();
+      let mut tr = Tr { buf: if sofar.is_empty() { format!("#case {id} {header}\n") } else { sofar } };
+      tr.line(&at, "hang");
+      tr.monitor("ioc:resolve-hang", &format!("operation `{at}` did not return within 20 s (the property demands a panic)"));
       tr.finish()
     }
   }
 }
 
-fn run_case(id: &str, header: &str, ops: &[String]) -> String {
-  if !touches_global(ops) || header.contains("mode=stress") { return run_case_watched(id, header, ops); }
-  // fresh process: the global container starts empty
+fn case_text(id: &str, header: &str, ops: &[String]) -> String {
+  let mut text = format!("#case {id} {header}\n");
+  for l in ops { text.push_str(l); text.push('\n'); }
+  text.push_str("#end\n");
+  text
+}
+
+/// run `ioch <args>` with `input` on stdin; `None` when the process died (abort, stack overflow)
+fn spawn_self(args: &[String], input: &str) -> Option<String> {
   let exe = std::env::current_exe().expect("current_exe");
-  let mut child = std::process::Command::new(exe).arg("child")
+  let mut child = std::process::Command::new(exe).args(args)
     .stdin(std::process::Stdio::piped()).stdout(std::process::Stdio::piped()).stderr(std::process::Stdio::null()).spawn().expect("spawn child");
   {
     let mut si = child.stdin.take().unwrap();
-    let mut text = format!("#case {id} {header}\n");
-    for l in ops { text.push_str(l); text.push('\n'); }
-    text.push_str("#end\n");
-    let _ = si.write_all(text.as_bytes());
+    let _ = si.write_all(input.as_bytes());
   }
   let out = child.wait_with_output().expect("child output");
-  let s = String::from_utf8_lossy(&out.stdout).to_string();
-  if s.trim_end().ends_with("#end") { s } else {
-    let mut tr = Tr::new(id, header);
-    tr.monitor("ioc:child-died", &format!("child process for a global-container case ended with {:?}", out.status.code()));
-    tr.finish()
+  if out.status.success() { Some(String::from_utf8_lossy(&out.stdout).to_string()) } else { None }
+}
+
+fn count_ends(s: &str) -> usize { s.lines().filter(|l| l.starts_with("#end")).count() }
+
+/// the case killed its process: that is neither a value nor a panic
+fn crashed_case(id: &str, header: &str, ops: &[String]) -> String {
+  let mut tr = Tr::new(id, header);
+  for l in ops { tr.line(l, "?"); }
+  tr.monitor("ioc:resolve-crash", "the process running this case died (stack overflow / abort) instead of returning or panicking");
+  tr.finish()
+}
+
+/// one case in a fresh process (`ioch child`): the global container starts empty, and a crash
+/// (stack overflow on an undetected cycle) takes down only this case
+fn run_case_isolated(id: &str, header: &str, ops: &[String]) -> String {
+  match spawn_self(&["child".to_string()], &case_text(id, header, ops)) {
+    Some(s) if count_ends(&s) == 1 => s,
+    _ => crashed_case(id, header, ops),
   }
+}
+
+/// inside a worker process
+fn run_case(id: &str, header: &str, ops: &[String]) -> String {
+  if !touches_global(ops) || header.contains("mode=stress") { return run_case_watched(id, header, ops); }
+  run_case_isolated(id, header, ops)
 }
 
 // ---------------------------------------------------------------- generators
@@ -633,48 +660,73 @@ fn gen_stress(rng: &mut Rng, case_no: usize, thorough: bool) -> Vec<String> {
 
 fn flag(args: &[String], name: &str) -> Option<String> { args.iter().position(|a| a == name).and_then(|i| args.get(i + 1).cloned()) }
 
+fn gen_case(seed: u64, i: usize, thorough: bool) -> (String, Vec<String>) {
+  let mut rng = Rng::new(seed.wrapping_mul(1_000_003).wrapping_add(i as u64));
+  (format!("{seed}.{i}"), gen_ops(&mut rng, thorough))
+}
+fn stress_case(seed: u64, i: usize, thorough: bool) -> (String, Vec<String>) {
+  let mut rng = Rng::new(seed.wrapping_mul(7_000_003).wrapping_add(i as u64));
+  (format!("st{seed}.{i}"), gen_stress(&mut rng, i, thorough))
+}
+
 fn main() {
   std::panic::set_hook(Box::new(|_| {}));
   let args: Vec<String> = std::env::args().skip(1).collect();
+  let seed: u64 = flag(&args, "--seed").and_then(|s| s.parse().ok()).unwrap_or(1);
+  let cases: usize = flag(&args, "--cases").and_then(|s| s.parse().ok()).unwrap_or(100);
+  let tier = flag(&args, "--tier").unwrap_or_else(|| "quick".to_string());
+  let thorough = tier == "thorough";
+  let from: usize = flag(&args, "--from").and_then(|s| s.parse().ok()).unwrap_or(0);
+  let to: usize = flag(&args, "--to").and_then(|s| s.parse().ok()).unwrap_or(cases);
   match args.first().map(|s| s.as_str()) {
+    // ---- worker processes
     Some("child") => {
       let mut text = String::new();
       let _ = std::io::stdin().read_to_string(&mut text);
       for c in parse_cases(&text) { print!("{}", run_case_watched(&c.id, &c.header.join(" "), &c.ops)); }
-      let _ = std::io::stdout().flush();
-      std::process::exit(0);
     }
-    Some("stress") => {
-      let seed: u64 = flag(&args, "--seed").and_then(|s| s.parse().ok()).unwrap_or(1);
-      let cases: usize = flag(&args, "--cases").and_then(|s| s.parse().ok()).unwrap_or(100);
-      let thorough = flag(&args, "--tier").as_deref() == Some("thorough");
+    Some("genchunk") => {
+      for i in from..to { let (id, ops) = gen_case(seed, i, thorough); print!("{}", run_case(&id, "mode=seq", &ops)); }
+    }
+    Some("stresschunk") => {
       // sequential: each case spawns its own racing threads
-      for i in 0..cases {
-        let mut rng = Rng::new(seed.wrapping_mul(7_000_003).wrapping_add(i as u64));
-        let ops = gen_stress(&mut rng, i, thorough);
-        print!("{}", run_case(&format!("st{seed}.{i}"), "mode=stress", &ops));
-      }
-      let _ = std::io::stdout().flush();
-      std::process::exit(0);
+      for i in from..to { let (id, ops) = stress_case(seed, i, thorough); print!("{}", run_case(&id, "mode=stress", &ops)); }
     }
-    _ => {}
-  }
-  match parse_args() {
-    Mode::Gen { seed, cases, tier, .. } => {
-      let thorough = tier == "thorough";
-      let outs = par_map(cases, 8, |i| {
-        let mut rng = Rng::new(seed.wrapping_mul(1_000_003).wrapping_add(i as u64));
-        let ops = gen_ops(&mut rng, thorough);
-        run_case(&format!("{seed}.{i}"), "mode=seq", &ops)
+    // ---- orchestrators: the work happens in worker processes so that a crashing case is isolated
+    Some(m @ ("gen" | "stress")) => {
+      let (chunk, workers) = if m == "gen" { (100usize, 8usize) } else { (250, 2) };
+      let nchunks = (cases + chunk - 1) / chunk;
+      let outs = par_map(nchunks, workers, |c| {
+        let (a, b) = (c * chunk, ((c + 1) * chunk).min(cases));
+        let sub = |a: usize, b: usize| -> Option<String> {
+          let args: Vec<String> = [if m == "gen" { "genchunk" } else { "stresschunk" }, "--seed", &seed.to_string(), "--tier", &tier,
+            "--from", &a.to_string(), "--to", &b.to_string()].iter().map(|s| s.to_string()).collect();
+          spawn_self(&args, "").filter(|s| count_ends(s) == b - a)
+        };
+        if let Some(s) = sub(a, b) { return s; }
+        // a case of this chunk killed the worker: find it
+        let mut out = String::new();
+        for i in a..b {
+          match sub(i, i + 1) {
+            Some(s) => out.push_str(&s),
+            None => {
+              let (id, ops) = if m == "gen" { gen_case(seed, i, thorough) } else { stress_case(seed, i, thorough) };
+              out.push_str(&crashed_case(&id, if m == "gen" { "mode=seq" } else { "mode=stress" }, &ops));
+            }
+          }
+        }
+        out
       });
       for o in outs { print!("{o}"); }
     }
-    Mode::Run { file } => {
+    Some("run") => {
+      let file = args.get(1).cloned().unwrap_or_else(|| { eprintln!("run <file>"); std::process::exit(2) });
       for c in read_cases(&file) {
         let header = if c.header.is_empty() { "mode=seq".to_string() } else { c.header.join(" ") };
-        print!("{}", run_case(&c.id, &header, &c.ops));
+        print!("{}", run_case_isolated(&c.id, &header, &c.ops));
       }
     }
+    _ => { eprintln!("usage: gen|stress --seed S --cases N [--tier T] | run <file>"); std::process::exit(2); }
   }
   let _ = std::io::stdout().flush();
   // leaked watchdog threads (if any) must not keep the process alive
